@@ -37,6 +37,9 @@ def run_validate(mutate=None):
         o.screening_step_drag, o.screening_step_size, o.screening_tolerance = SR(R("drag")), SR(R("alpha")), SR(R("tol"))
         o.gpu = False
         o.sparse_solver = L["SparseSolver"].SUPERLU
+        # every switch that validate() may look at is an instance attribute with both values (class-level defaults would hide a branch)
+        o.adaptive = bool(SB(z3.Bool("adaptive")))
+        o.include_screening = bool(SB(z3.Bool("include_screening")))
         bad = z3.Or(o.dt_init.e > o.dt_max.e, z3.Not(z3.And(o.adaptive_time_step_multiplier.e > 0, o.adaptive_time_step_multiplier.e < 1)),
                     z3.Not(z3.And(o.screening_step_drag.e > 0, o.screening_step_drag.e <= 1)), o.screening_step_size.e <= 0, o.screening_tolerance.e <= 0)
         if not tp_none:
